@@ -155,6 +155,7 @@ func (r *Run) endOp(t *Task, id uintptr, dir int) {
 	}
 	r.mu.Unlock()
 	r.enter(t)
+	r.barrier(t)
 }
 
 // Recv replaces <-ch in expression position.
@@ -217,6 +218,7 @@ func SendDone() {
 	t.opDir = 0
 	r.mu.Unlock()
 	r.enter(t)
+	r.barrier(t)
 }
 
 // Close replaces close(ch).
@@ -238,6 +240,7 @@ func Close[T any](ch chan<- T, site string) {
 	r.chvc[id] = r.chvc[id].join(t.vc)
 	r.mu.Unlock()
 	close(ch)
+	r.barrier(t)
 }
 
 // ---------------------------------------------------------------- select
@@ -339,6 +342,17 @@ func SelectBegin(site string, hasDefault bool, cases ...SelCase) *Sel {
 		r.SelMulti++
 		s.chosen = ready[r.Tape.Draw(len(ready))]
 	}
+	if r.cfg.Trace {
+		var lens []int
+		for _, c := range cases {
+			if c.id == 0 {
+				lens = append(lens, -1)
+			} else {
+				lens = append(lens, c.ln())
+			}
+		}
+		r.trace("    select %s task %s ready=%v chosen=%d lens=%v", site, t.ID, ready, s.chosen, lens)
+	}
 	if s.chosen >= 0 && cases[s.chosen].dir == dirSend {
 		t.vc = t.vc.tick(t.Num)
 		r.chvc[cases[s.chosen].id] = r.chvc[cases[s.chosen].id].join(t.vc)
@@ -382,6 +396,9 @@ func SelectEnd(s *Sel, i int) {
 	}
 	r.mu.Unlock()
 	r.enter(t)
+	if i >= 0 {
+		r.barrier(t)
+	}
 }
 
 // ---------------------------------------------------------------- time
